@@ -488,6 +488,7 @@ fn distinct_time_case() -> impl Strategy<Value = JobCase> {
 		1 => Just(Op::UnsetErrHandler),
 		1 => Just(Op::DropHandle),
 		1 => Just(Op::RawContinue),
+		1 => Just(Op::RawNextEnding),
 	];
 	let gap = prop_oneof![4 => Just(0u32), 3 => Just(10), 2 => Just(20), 2 => Just(50), 2 => Just(100), 3 => Just(20_000)];
 	let step = (gap, op).prop_map(|(gap, op)| Step { gap, op, waiters: 1 });
@@ -505,7 +506,7 @@ fn distinct_time_case() -> impl Strategy<Value = JobCase> {
 				f.gap = f.gap.max(10);
 			}
 			JobCase {
-				sim: SimSpec { async_api: (children.len() + spawn_fail.len() + signal_fail.len()) % 3 == 1, hook_delay: [0u8, 3, 0, 20][(children.len() + 2 * spawn_fail.len() + kill_fail.len()) % 4], children, spawn_fail, kill_fail, signal_fail },
+				sim: SimSpec { async_api: (children.len() + spawn_fail.len() + signal_fail.len()) % 3 == 1, hook_delay: [0u8, 3, 0, 20][(children.len() + 2 * spawn_fail.len() + kill_fail.len()) % 4], children, spawn_fail, kill_fail, signal_fail, wait_fail: vec![] },
 				steps,
 				track: false,
 				sched,
